@@ -57,12 +57,12 @@ type Miner struct {
 // World is one simulated run.
 type World struct {
 	concSamples []concSample
-	noiseCtr uint64
-	tape     *sim.Tape
-	log      *sim.Log
-	stats    sim.Stats
-	cfg      *Config
-	tier     string
+	noiseCtr    uint64
+	tape        *sim.Tape
+	log         *sim.Log
+	stats       sim.Stats
+	cfg         *Config
+	tier        string
 
 	net     *consensus.Network
 	params  *ref.Params
